@@ -2,6 +2,8 @@
 # verify_seed.sh <id>: confirm a sub-agent's seeded change (tests pass, demo fails with it, passes without)
 id=$1; wt=/tmp/wt/$id; out=/tmp/wt/out-$id
 cd $wt || exit 2
+# pristine copy of the library (never build against /repo's working tree: a seeded change may be applied there)
+orig=/tmp/wt/orig-src; rm -rf $orig; mkdir -p $orig; git -C /repo archive HEAD | tar -x -C $orig
 git -C $wt diff > /tmp/wt/check-$id.diff
 cmp -s /tmp/wt/check-$id.diff $out/patch.diff || echo "NOTE: patch.diff differs from worktree diff"
 rm -rf /tmp/wt/b-$id; cmake -S $wt -B /tmp/wt/b-$id -G Ninja -DCMAKE_BUILD_TYPE=RelWithDebInfo >/dev/null 2>&1 && cmake --build /tmp/wt/b-$id >/dev/null 2>&1
@@ -9,7 +11,8 @@ t=$(cd /tmp/wt/b-$id && ./polyseed-tests 2>&1 | tail -1); n=$(cd /tmp/wt/b-$id &
 echo "tests-with-change: $t ($n PASSED)"
 rm -rf /tmp/wt/b-$id
 gcc -O1 -w -DPOLYSEED_STATIC -iquote $wt/src -I$wt/include $out/demo.c $wt/src/*.c -lutf8proc -o /tmp/wt/demo-$id-mut 2>/tmp/wt/cc-$id.log || { echo "demo compile failed (mut)"; head -5 /tmp/wt/cc-$id.log; }
-gcc -O1 -w -DPOLYSEED_STATIC -iquote /tmp/w/repo0/src -I/tmp/w/repo0/include $out/demo.c /tmp/w/repo0/src/*.c -lutf8proc -o /tmp/wt/demo-$id-orig 2>/tmp/wt/cc-$id.log || { echo "demo compile failed (orig)"; head -5 /tmp/wt/cc-$id.log; }
+gcc -O1 -w -DPOLYSEED_STATIC -iquote $orig/src -I$orig/include $out/demo.c $orig/src/*.c -lutf8proc -o /tmp/wt/demo-$id-orig 2>/tmp/wt/cc-$id.log || { echo "demo compile failed (orig)"; head -5 /tmp/wt/cc-$id.log; }
 /tmp/wt/demo-$id-mut >/tmp/wt/demo-$id-mut.out 2>&1; echo "demo with change: rc=$? $(tail -1 /tmp/wt/demo-$id-mut.out | cut -c1-150)"
 /tmp/wt/demo-$id-orig >/tmp/wt/demo-$id-orig.out 2>&1; echo "demo original: rc=$? $(tail -1 /tmp/wt/demo-$id-orig.out | cut -c1-150)"
 rm -f /tmp/wt/demo-$id-mut /tmp/wt/demo-$id-orig
+rm -rf $orig
